@@ -11,6 +11,8 @@ datagram run is replayed through the Lean L1 model."""
 import multiprocessing, os, random, traceback
 import multi_session as ms
 import prudp_session as ps
+import c07_multiport as mpo
+import c07_writefail as wf
 import l1_trace
 from sim import ticks, quant
 
@@ -280,8 +282,18 @@ def work_inner(args):
     idx, specd, seed, atk = args
     try:
         spec = ms.Spec(**specd)
+        if atk[0] == "multiport":
+            # one read with packets for several virtual ports: direct oracles (harness/c07_multiport.py), no twin
+            att = mpo.run(spec, seed, atk[1])
+            st = mpo.stats(att)
+            st.update(inj=st["multi_port_reads"] + st["forged"] + st["third_reads"], decodes=st["reads"], rejected=0)
+            return idx, specd, seed, atk, mpo.judge(att), att, st, None
         ref = ms.run(spec, seed, None)
-        if atk[0] == "datagram":
+        if atk[0] == "writefail-dg":
+            att = ms.run(spec, seed, wf.datagram_attack(atk[1]))
+        elif atk[0] == "writefail-st":
+            att = ms.run(spec, seed, wf.stream_attack(atk[1]))
+        elif atk[0] == "datagram":
             att = ms.run(spec, seed, datagram_attack(atk[1]))
         elif atk[0] == "stream":
             att = ms.run(spec, seed, stream_attack(atk[1]))
@@ -319,6 +331,8 @@ def work_inner(args):
                 bad.append(("reconnect-setup", "the reconnecting peer's first connection did not work: %r" % (rr[:2],)))
             if len(rr) < 2:
                 bad.append(("reconnect-setup", "the reconnecting peer never reconnected: %r" % (rr,)))
+        if atk[0] in ("writefail-dg", "writefail-st") and not getattr(att, "write_failures", 0) and not (atk[0] == "writefail-st" and atk[1]["kind"] == "syn-close"):
+            bad.append(("writefail-setup", "no write of the server failed in this run"))
         if atk[0] == "flood" and att.flood_sent < atk[1]["n"]:
             bad.append(("flood-setup", "the flooding peer could send only %d of %d messages (%s)" % (att.flood_sent, atk[1]["n"], getattr(att, "flood_error", None))))
         if diff:
@@ -340,7 +354,8 @@ def work_inner(args):
         # traffic for unknown ports / peers creates no state
         for t, tab in att.tables:
             for vp, size in tab.items():
-                allowed = sum(1 for c in spec.clients if (c["vport"] if isinstance(c["vport"], int) else c["vport"][0]) == vp) + (1 if atk[0] in ("flood", "reconnect") and atk[1]["vport"] == vp else 0)   # the flooding peer is a valid connection
+                allowed = sum(1 for c in spec.clients if (c["vport"] if isinstance(c["vport"], int) else c["vport"][0]) == vp) + (1 if atk[0] in ("flood", "reconnect") and atk[1]["vport"] == vp else 0) \
+                          + (atk[1]["n"] if atk[0] == "writefail-st" and atk[1].get("at") == 2 else 0)   # the flooding peer is a valid connection (and so are the peers whose connections break when their CONNECT is answered, until they time out)
                 if size > allowed:
                     bad.append(("state-created", "at t=%.3f the server holds %d connections on vport %d, only %d genuine clients exist" % (t, size, vp, allowed)))
                     break
@@ -363,7 +378,9 @@ def work_inner(args):
         return idx, specd, seed, atk, [], None, {}, traceback.format_exc()
 
 
-def l1_server_compare(drv, sess):
+def l1_server_compare(drv, sess, same_tick_unordered=False):
+    """same_tick_unordered: datagrams emitted at the very same instant are compared as a set (connections that were started at the same
+    instant have timers that fall due at the same instant; which of them the event loop serves first is not part of the model)"""
     b = l1_trace.build_server(sess)
     if b is None:
         return {"ok": True, "skipped": True, "diffs": []}
@@ -372,6 +389,8 @@ def l1_server_compare(drv, sess):
     tx, other, errs = l1_trace.model_stream(lines, kinds, outs)
     diffs = [{"kind": "driver", "line": l[:160], "model": o} for l, o in errs]
     r, m = real["s"], tx["s"]
+    if same_tick_unordered:
+        r, m = sorted(r), sorted(m)
     for i, (x, y) in enumerate(zip(r, m)):
         if x != y:
             diffs.append({"kind": "tx", "index": i, "real": x, "model": y}); break
@@ -390,6 +409,7 @@ def run(ctx):
                 "clients, and spoofed as the server), or opens a hostile stream connection (partial header, bad magic, garbage, huge "
                 "announced length), or uses the ordinary client against (port, stream type) pairs nobody serves, or is a perfectly valid further peer whose handler is busy and who sends 150..300 messages nobody reads, or a valid peer that closes and reconnects at once from the same address and port while the server's handler of the closed connection is still in its teardown; oracle: non-interference, delivery only on the addressed connection/port, no server state for "
                 "unknown peers, bounded decode work; the server transport of every datagram run is replayed through the Lean L1 model; "
+                "also: one read that carries packets for several virtual ports (a client transport with a connection to each of 2..3 bound ports, everything written within 2 ms aggregated into one datagram / stream read in both directions, forged packets for unbound ports behind / in front of / between the genuine ones, third parties' reads mixing requests for bound and unbound ports in every order; direct oracles: own echoes only, nothing lost, answers only by the addressed ports, no state), and a transport whose write fails for one peer (sendto raising for an address, stream peers resetting before the answer to SYN / CONNECT is written); "
                 "distinct non-trivial = injected hostile datagrams")
     jobs = []
     n = 0
@@ -451,6 +471,33 @@ def run(ctx):
         for teardown in ((0.25,) if quick else (0.0625, 0.25, 1.0)):
             jobs.append((n, dict(sp, ping_timeout=1.0, resend_timeout=0.25, rounds=9, round_gap=0.4375), ctx.rng.getrandbits(32),
                          ("reconnect", dict(vport=sp["vports"][0], cycles=2 if teardown < 1 else 3, teardown=teardown, start=ctx.rng.choice([0.25, 0.5]))))); n += 1
+    # ONE read with packets for several virtual ports: a client transport that holds a connection to each of the server's 2..3 ports,
+    # everything it sends (and is sent) within 2 ms arriving as one datagram / one stream read; forged packets for unbound ports behind,
+    # in front of and between the genuine ones; third parties' hand-made reads mixing requests for bound and unbound ports in every order
+    mp_specs = [
+        dict(server_version=1, vports=[1, 2, 3], unbound=[5, 9], groups=[dict(version=1, vports=[1, 2, 3]), dict(version=1, vports=[2, 1])]),
+        dict(server_version=2, vports=[1, 2], unbound=[4, 7], groups=[dict(version=1, vports=[1, 2]), dict(version=0, vports=[1, 2])]),
+        dict(server_version=0, vports=[1, 2], unbound=[3, 6], groups=[dict(version=0, vports=[1, 2])]),
+        dict(transport="lite", server_version=1, vports=[1, 2, 3], unbound=[5, 40], groups=[dict(version=1, vports=[1, 2, 3]), dict(version=1, vports=[3, 1])]),
+        dict(server_version=1, vports=[3, 15], unbound=[1, 14], groups=[dict(version=1, vports=[15, 3]), dict(version=1, vports=[3])]),
+        dict(transport="lite", server_version=1, vports=[1, 31], unbound=[2, 30], groups=[dict(version=1, vports=[31, 1])]),
+    ]
+    mp_modes = [dict(aggregate=False, splice="none", third=True), dict(aggregate=True, splice="none", third=True, rechunk=True),
+                dict(aggregate=True, splice="behind", third=True, rechunk=True), dict(aggregate=True, splice="any", third=False, rechunk=True)]
+    for sp in mp_specs:
+        for mode in (mp_modes[1:] if quick else mp_modes):
+            for r in range(1 if quick else 5):
+                jobs.append((n, sp, ctx.rng.getrandbits(32), ("multiport", mode))); n += 1
+    # a transport whose WRITE fails for one particular peer: valid handshake requests from addresses the datagram socket cannot send to;
+    # stream peers that reset their connection before the answer to their SYN / CONNECT is written
+    for sp in (dg_specs if not quick else [dg_specs[0], dg_specs[1], dg_specs[2]]):
+        for r in range(1 if quick else 3):
+            jobs.append((n, sp, ctx.rng.getrandbits(32), ("writefail-dg", dict(addrs=ctx.rng.choice([1, 2, 3]), every=ctx.rng.choice([0.125, 0.25]))))); n += 1
+    st2_spec = dict(transport="lite", server_version=1, clients=[dict(version=1, vport=1), dict(version=1, vport=2), dict(version=1, vport=1, start=0.5)], vports=[1, 2], rounds=4)
+    for sp in (st_spec, st2_spec):
+        for cfg in (dict(kind="syn-close"), dict(kind="syn-close", copies=3), dict(kind="break", at=1), dict(kind="break", at=2)):
+            for r in range(1 if quick else 3):
+                jobs.append((n, sp, ctx.rng.getrandbits(32), ("writefail-st", dict(cfg, n=ctx.rng.choice([3, 5]), every=ctx.rng.choice([0.125, 0.3125]), start=ctx.rng.choice([0.0625, 0.25]), vport_index=r)))); n += 1
     drv = ctx.driver("C02")
     ndiff, first = 0, None
     with multiprocessing.Pool(min(16, os.cpu_count() or 4)) as pool:
@@ -459,9 +506,9 @@ def run(ctx):
                 ctx.corr_break("c07-session-harness", "session crashed in the harness", {"traceback": err, "spec": specd, "attack": atk})
                 continue
             for key, what in bad:
-                ctx.violation("c07:%s:%s" % (key, specd.get("transport", "udp") + (":" + atk[1] if atk[0] == "stream" else "") + (":flood" if atk[0] == "flood" else "") + (":probe" if atk[0] == "probe" else "") + (":reconnect" if atk[0] == "reconnect" else "")), what,
+                ctx.violation("c07:%s:%s" % (key, specd.get("transport", "udp") + (":" + atk[1] if atk[0] == "stream" else "") + (":flood" if atk[0] == "flood" else "") + (":probe" if atk[0] == "probe" else "") + (":reconnect" if atk[0] == "reconnect" else "") + (":" + atk[0] if atk[0] in ("multiport", "writefail-dg", "writefail-st") else "")), what,
                               {"spec": specd, "attack": atk, "seed": seed, "how": "harness/corr_C07.py work((0, spec, seed, attack))"})
-            r = l1_server_compare(drv, att) if att is not None else {"ok": True, "diffs": [], "skipped": True}
+            r = l1_server_compare(drv, att, atk[0] == "multiport") if att is not None else {"ok": True, "diffs": [], "skipped": True}
             if not r["ok"]:
                 ndiff += 1
                 if first is None:
@@ -475,6 +522,12 @@ def run(ctx):
                 ctx.evaluations += len(atk[1])
                 for i in range(len(atk[1])):
                     ctx.distinct.add((idx, "probe", i))
+            elif atk[0] == "multiport":
+                ctx.tag("%s:one-read-several-ports" % specd.get("transport", "udp"), stats.get("multi_port_reads", 0))
+                ctx.tag("%s:forged-for-unbound-port-in-genuine-read:%s" % (specd.get("transport", "udp"), atk[1]["splice"]), stats.get("forged", 0))
+                ctx.tag("%s:third-party-read-bound+unbound" % specd.get("transport", "udp"), stats.get("third_reads", 0))
+            elif atk[0] in ("writefail-dg", "writefail-st"):
+                ctx.tag("%s:write-fails-for-one-peer:%s" % (specd.get("transport", "udp"), atk[1].get("kind", "sendto-raises") + (str(atk[1]["at"]) if "at" in atk[1] else "")), stats.get("inj", 0))
             else:
                 ctx.tag("%s:%s" % (specd.get("transport", "udp"), atk[1] if atk[0] != "flood" else "flood"), stats.get("inj", 0) if atk[0] != "flood" else getattr(att, "flood_sent", 0))
             if atk[0] == "flood":
